@@ -620,7 +620,7 @@ func c17NewerWins(p *Program, r *Report) {
 	}
 	newer := p.methodNamed(vr.State, "IsNewerThan")
 	for _, fn := range []*ssa.Function{vr.Add, vr.Merge} {
-		g := p.ig(fn)
+		g := p.igxSkip(fn, map[*ssa.Function]bool{newer: true}) // the member loop may live in a helper called once from the merge; IsNewerThan stays a call (its result edges are the rule's subject)
 		n := 0
 		for i, in := range g.Nodes {
 			mu, ok := in.(*ssa.MapUpdate)
@@ -790,7 +790,7 @@ func c17NoShortcut(p *Program, r *Report) {
 	g := p.igx(fn)
 	fromOtherMembers := func(v ssa.Value) bool {
 		f, b := fieldLoad(strip(v))
-		return f == vr.Members && strip(b) == ssa.Value(other)
+		return f == vr.Members && b != nil && g.res(b) == ssa.Value(other)
 	}
 	ranges := nodesWhere(g, func(in ssa.Instruction) bool {
 		rg, ok := in.(*ssa.Range)
@@ -846,7 +846,7 @@ func c17Changed(p *Program, r *Report) {
 		return
 	}
 	fn := vr.Merge
-	g := p.ig(fn)
+	g := p.igx(fn) // a member loop extracted into a helper returning its own `changed` stays part of the chain
 	// `changed` is the named result. Without defer it lives in registers: the returned value is a chain of phis whose
 	// operands are the previous value or the constant true. A CFG edge into such a phi whose operand is `true` is a
 	// "sets changed" edge; the chain is monotone (false only initially), so once set it stays set.
@@ -860,6 +860,16 @@ func c17Changed(p *Program, r *Report) {
 			chain[v] = true
 			for _, e := range ph.Edges {
 				collect(e)
+			}
+		}
+		// result of an inlined helper: continue with what the helper returns
+		if c, ok := v.(*ssa.Call); ok {
+			if y := g.Inlined[c]; y != nil && y.Signature.Results().Len() == 1 {
+				for _, b := range y.Blocks {
+					if ret, isR := b.Instrs[len(b.Instrs)-1].(*ssa.Return); isR {
+						collect(retOperand(ret, 0))
+					}
+				}
 			}
 		}
 	}
@@ -881,7 +891,7 @@ func c17Changed(p *Program, r *Report) {
 							trueE[edge{from, to}] = true
 						}
 					}
-				} else if pred != fn.Blocks[0] && len(pred.Preds) > 0 {
+				} else if pred != pred.Parent().Blocks[0] && len(pred.Preds) > 0 {
 					// a reset to false after the start would break monotonicity (only the initial value may be false)
 					if !g.DominatedByNodes(from, map[int]bool{}) {
 						_ = from
@@ -920,8 +930,12 @@ func c17Changed(p *Program, r *Report) {
 			f, base := fieldAddr(x.Addr)
 			// the property demands `changed` for membership and version-vector changes only; scalar fields
 			// (epoch, timestamp, protocol version, counts) are not constrained
-			if f == vvF && strip(base) == ssa.Value(recv) {
-				desc = "assignment of the version vector"
+			if f == vvF && g.res(base) == ssa.Value(recv) {
+				// the join with the other view's vector; pruning to the current members (recomputeCounts) is not a change the
+				// property asks to be reported
+				if c, isC := strip(x.Val).(*ssa.Call); isC && c.Call.StaticCallee() != nil && c.Call.StaticCallee().Name() == "Merge" {
+					desc = "assignment of the version vector"
+				}
 			}
 		}
 		if desc == "" {
